@@ -10,7 +10,7 @@ fn oracle_of(id: &str) -> Oracle { match id { "C01" => Oracle::C01, "C04" => Ora
 
 pub fn params(tier: &str) -> (usize, usize) {
     // (lexeme-string length k for start documents, history depth)
-    if tier == "quick" { (2, 1) } else { (3, 2) }
+    if tier == "mini" { (0, 1) } else if tier == "quick" { (2, 1) } else { (3, 2) }
 }
 
 pub fn meta(id: &str, tier: &str) -> CheckMeta {
@@ -56,7 +56,7 @@ pub fn worker(ctx: &Ctx, res: &mut ShardResult) {
             idx += 1;
             if !ctx.mine(idx) { continue; }
             // seed-selected sub-box: one more level of depth on the seeds of one language
-            let extra = if (ctx.seed as usize) % nlang == li && di < nseeds && d.len() <= 14 { 1 } else { 0 };
+            let extra = if !ctx.mini() && (ctx.seed as usize) % nlang == li && di < nseeds && d.len() <= 14 { 1 } else { 0 };
             let cfg = HistCfg { oracle: oracle_of(&ctx.id), depth: depth + extra, chunks: vec![0, 1, 2, 3, 7], insert_atoms: atoms.clone(), max_states_per_doc: 200_000 };
             hist::explore_doc(ctx, &info, d, &cfg, res, &mut scratch);
             res.count(&format!("docs_{}", z.name), 1);
